@@ -69,6 +69,17 @@ def analyse(job):
             pass
     elif mode == "C07":
         out["errors"] += parsemc.declared(facts, universe())
+        # the graph expanded on demand during a traversal must contain exactly the declared dependencies as well (none duplicated per worker)
+        try:
+            x = parse_lazy_complete(inp)
+            if x.exc:
+                out["errors"].append(("lazy-exception", f"lazy expansion failed: {x.exc}"))
+            else:
+                lf = parsemc.graph_facts(x.graph)
+                out["errors"] += [("lazy-" + k, "expanded on demand: " + m) for k, m in parsemc.declared(lf, universe())]
+                out["lazy_nodes"] = len(lf["nodes"])
+        except param.EmptyCartesianProduct:
+            pass
     elif mode == "C09":
         out["errors"] += parsemc.copies(facts)
         g2 = parse_eager(inp)
